@@ -41,6 +41,12 @@ type hist struct {
 	// block.ComputeState (a block with a "flaky" script call is interrupted at it on the first attempt
 	// and computed again); judged by the cache-vs-trie read oracle only.
 	Blocks bool `json:"blocks,omitempty"`
+	// Extra: the history's own address table (account number 200+k = Extra[k]): 64-hex strings taken
+	// from the keys of contract nodes, used as transfer recipients / senders.
+	Extra []string `json:"extra,omitempty"`
+	// Node56: the set-up also stores a contract node whose encoding is exactly 56 bytes long (the size
+	// of an encoded client state), the one shape a length check in State.Decode cannot tell apart.
+	Node56 bool `json:"node56,omitempty"`
 }
 
 type clsCase struct {
@@ -52,6 +58,9 @@ type step struct {
 	pre, post chainh.Snap
 	res       chainh.Result
 	root      string // state root after the step
+	hitLen    int      // length of the node value found at the recipient's address before the send
+	pathHit   string   // key of the contract node whose trie path an applied send used as a client address
+	nodeAt    []string // contract node keys found stored at their own account address after the step
 	gn        string // miner SC global node in the trie after the step (Real histories)
 }
 
@@ -71,6 +80,9 @@ func env(fee, events bool) *chainh.Env {
 var universe = chainh.NewUniverse(400, 16)
 
 func newState(h hist) *chainh.State {
+	chainh.SetExtra(h.Extra)
+	chainh.CreditedAddrs = map[string]bool{}
+	chainh.Node56 = h.Node56
 	if h.Real {
 		return chainh.NewRealState(env(h.Fee, h.Events), universe, h.Init)
 	}
@@ -81,12 +93,40 @@ func run(h hist) []step {
 	st := newState(h)
 	out := make([]step, 0, len(h.Txns))
 	pre := universe.Snapshot(st.MPT)
+	credited := map[string]bool{} // addresses some transfer may have credited: a leaf there is legitimate
 	for i, t := range h.Txns {
+		hitLen := 0
+		wasCredited := false
+		if h.Real && t.Type == 0 {
+			hitLen = st.LeafLen(chainh.AccountID(t.To))
+			wasCredited = chainh.CreditedAddrs[chainh.AccountID(t.To)] // an earlier applied transfer already turned the leaf into a client state
+		}
 		res := st.Apply(i, t)
+		if h.Real && res.Applied {
+			if t.Type == 0 {
+				chainh.CreditedAddrs[chainh.AccountID(t.To)] = true
+			}
+			for _, tr := range append(append([]chainh.Tr{}, res.Rec.Trs...), res.Rec.Signed...) {
+				chainh.CreditedAddrs[chainh.AccountID(tr.To)] = true
+			}
+		}
 		post := universe.Snapshot(st.MPT)
 		sp := step{pre: pre, post: post, res: res, root: st.Root()}
 		if h.Real {
 			sp.gn = st.MinerGlobal()
+			credited[chainh.AccountID(t.To)] = true
+			for _, tr := range append(append([]chainh.Tr{}, res.Rec.Trs...), res.Rec.Signed...) {
+				credited[chainh.AccountID(tr.To)] = true
+			}
+			sp.nodeAt = st.NodesAtAccountAddresses(credited)
+			if res.Applied && t.Type == 0 && !wasCredited {
+				for _, k := range chainh.AllKeys() {
+					if chainh.HashOf(k) == chainh.AccountID(t.To) || chainh.HashOf(k) == chainh.AccountID(t.From) {
+						sp.pathHit = k
+						sp.hitLen = hitLen
+					}
+				}
+			}
 		}
 		out = append(out, sp)
 		pre = post
@@ -291,9 +331,20 @@ func check(h hist, steps []step) ([]viol, stats) {
 			// reaches the trie
 			add("C01:uppercase-recipient-leaf-lost", "txn %d (type %d) was applied; its transfer to account %d = upper-case spelling of existing account %d debited the source but no leaf was credited: sum of balances %s -> %s",
 				i, t.Type, upperDest, upperDest-chainh.UpperBase, total(s.pre), total(s.post))
-		} else if total(s.pre).Cmp(total(s.post)) != 0 {
+		} else if total(s.pre).Cmp(total(s.post)) != 0 && s.pathHit == "" {
 			add("C01:supply-changed", "txn %d (type %d, applied=%v status=%d) changed the sum of balances from %s to %s",
 				i, t.Type, applied, s.res.Status, total(s.pre), total(s.post))
+		}
+		if s.pathHit != "" && s.hitLen == 56 {
+			add("C01:transfer-to-contract-node-path:56-byte-node", "txn %d, a plain send, was applied although its counterparty address is Hash(%q), the trie path of that contract node, whose encoding happens to be exactly 56 bytes, the size of an encoded client state: the node is read as a client state and overwritten", i, s.pathHit)
+		} else if s.pathHit != "" {
+			add("C01:transfer-to-contract-node-path", "txn %d, a plain send, was applied although its counterparty address is Hash(%q), the trie path of that contract node: the node is read as a client state and overwritten", i, s.pathHit)
+		}
+		if len(s.nodeAt) > 0 {
+			add("C01:contract-node-at-account-address", "after txn %d the trie holds a contract node at the account address %s (a node key that is itself a valid client id, stored unhashed): a transfer to that id reads and overwrites it as a client state", i, s.nodeAt[0])
+		}
+		if len(s.post.BadIDs) > 0 { // only addresses an applied transfer credited (or that hold no recorded contract node) are looked at
+			add("C01:account-leaf-not-a-client-state", "after txn %d the leaf at the address of account %d, which an applied transfer credited, does not decode as a client state", i, s.post.BadIDs[0])
 		}
 		if s.post.Unknown != s.pre.Unknown && !h.Real {
 			add("C01:unaccounted-leaf", "txn %d created a leaf that is neither a client state nor a contract node", i)
@@ -1262,6 +1313,72 @@ func genBlockHist(r *vh.Rand) hist {
 	return h
 }
 
+// genNodeAddrHist (C01): real contract calls that write nodes, then small sends to and from addresses
+// that equal hash-shaped contract node keys (every key the set-up and the contracts handed to
+// InsertTrieNode is recorded) and the hashes of those keys.
+func genNodeAddrHist(r *vh.Rand) hist {
+	h := hist{Fee: r.Bool(), Real: true}
+	h.Init = []chainh.Acct{{ID: chainh.IDMiner, Bal: 100, Txn: -1}, {ID: 3, Bal: uint64(r.Range(10000, 100000)), Txn: -1},
+		{ID: 4, Bal: uint64(r.Range(10000, 100000)), Txn: -1}, {ID: chainh.IDFaucet, Bal: 1000, Txn: -1}}
+	st := newState(h)
+	nonce := map[int]int64{}
+	next := func(from int) int64 { nonce[from]++; return nonce[from] }
+	round := int64(3)
+	add := func(t chainh.Txn) {
+		round++
+		t.Round = round
+		st.Apply(len(h.Txns), t)
+		h.Txns = append(h.Txns, t)
+	}
+	for i, n := 0, r.Range(1, 4); i < n; i++ {
+		from := 3 + r.Intn(2)
+		t := chainh.Txn{Type: 1000, From: from, Fee: uint64(r.Range(0, 3))}
+		switch r.Intn(5) {
+		case 0:
+			t.From = 3
+			t.To, t.Fn, t.Input = chainh.IDMiner, "update_settings", fmt.Sprintf(`{"fields":{"max_delegates":"%d"}}`, r.Range(100, 300))
+		case 1:
+			t.To, t.Fn, t.Value = chainh.IDMiner, "addToDelegatePool", uint64(r.Range(1, 200))
+			t.Input = fmt.Sprintf(`{"provider_type":1,"provider_id":%q}`, chainh.ProviderID(0))
+		case 2:
+			a := uint64(r.Range(1, 60))
+			t.To, t.Fn, t.Value = chainh.IDVesting, "add", a
+			t.Input = fmt.Sprintf(`{"description":"verif","start_time":0,"duration":5000000000,"destinations":[{"id":%q,"amount":%d}]}`, chainh.AccountID(4), a)
+		case 3:
+			t.To, t.Fn, t.Value = chainh.IDZcn, "burn", uint64(r.Range(5, 40))
+			t.Input = `{"ethereum_address":"0x0000000000000000000000000000000000005001"}`
+		default:
+			t.To, t.Fn, t.Value = chainh.IDFaucet, "pour", uint64(r.Range(1, 50))
+		}
+		t.Nonce = next(t.From)
+		add(t)
+	}
+	// the address table: hash-shaped node keys and the hashes of all recorded keys
+	keys := chainh.HashShapedKeys()
+	h.Extra = append([]string{}, keys...)
+	// Hash(key) is the trie path of the node itself: a send to that address is applied on the tree as it
+	// is and overwrites the node with a client state (reported as C01:transfer-to-contract-node-path).
+	// Rejected once State.Decode refuses values that are not exactly as long as an encoded client state.
+	for _, k := range chainh.AllKeys() {
+		h.Extra = append(h.Extra, chainh.HashOf(k))
+	}
+	chainh.SetExtra(h.Extra)
+	for i, n := 0, r.Range(2, 6); i < n && len(h.Extra) > 0; i++ {
+		k := r.Intn(len(h.Extra))
+		if r.Chance(2, 3) && len(keys) > 0 {
+			k = r.Intn(len(keys))
+		}
+		from := 3 + r.Intn(2)
+		t := chainh.Txn{Type: 0, From: from, To: chainh.ExtraBase + k, Value: uint64(r.Range(1, 9)), Fee: uint64(r.Range(0, 2))}
+		if r.Chance(1, 5) { // spend from such an address
+			t.From, t.To = chainh.ExtraBase+k, from
+		}
+		t.Nonce = next(t.From)
+		add(t)
+	}
+	return h
+}
+
 // genSettingsHist (C02): the real minersc (cacheable global node) and faucetsc update_settings
 // through Chain.UpdateState over several blocks with the production cache layering: successful
 // updates (which put the global node into the block / state cache and later save it again) around
@@ -1498,7 +1615,7 @@ func key(h hist) string {
 }
 
 func sub(h hist, keep []int) hist {
-	h2 := hist{Fee: h.Fee, Events: h.Events, Init: h.Init, Nodes: h.Nodes, Real: h.Real, Blocks: h.Blocks}
+	h2 := hist{Fee: h.Fee, Events: h.Events, Init: h.Init, Nodes: h.Nodes, Real: h.Real, Blocks: h.Blocks, Extra: h.Extra, Node56: h.Node56}
 	for _, i := range keep {
 		h2.Txns = append(h2.Txns, h.Txns[i])
 	}
@@ -1829,6 +1946,16 @@ func main() {
 		handle(genHist(rnd, p), i < nCoq)
 	}
 	if prop == "C01" {
+		nn := o.N(120, 1200)
+		for i := 0; i < nn; i++ {
+			handle(genNodeAddrHist(rnd), false)
+		}
+		// the residual of the State.Decode length check, one fixed history in every tier: a contract node whose
+		// encoding is exactly 56 bytes, then a send of 1 token to the address that is its trie path
+		handle(hist{Fee: false, Real: true, Node56: true, Init: []chainh.Acct{{ID: 3, Bal: 10000, Txn: -1}},
+			Extra: []string{chainh.HashOf(chainh.Node56Key)},
+			Txns:  []chainh.Txn{{Type: 0, From: 3, To: chainh.ExtraBase, Value: 1, Nonce: 1, Round: 5}}}, false)
+		rep.Note("contract node keys as addresses: %d histories of real faucetsc / vestingsc / zcnsc / minersc calls followed by small sends to and from every hash-shaped key handed to InsertTrieNode (recorded by wrapping the state context; the miner SC global settings key among them) and to the hashes of all recorded keys; oracle: sum of all client leaves, every leaf at such an address decodes as a client state, no contract node sits at its own key's account address", nn)
 		// destinations spelled in upper case (a different string for the same hex digits)
 		pu := p
 		pu.upper = 30
